@@ -3,7 +3,7 @@ import os, hashlib, subprocess, glob, time
 
 VERIF = os.path.dirname(os.path.dirname(os.path.dirname(os.path.abspath(__file__))))
 OUT = os.path.join(VERIF, ".build", "mir")
-FEATURES = "tzdb,verif_hooks"
+FEATURES = "compiled_data,verif_hooks"
 
 
 def tree_hash(root="/repo"):
